@@ -92,3 +92,11 @@ def judge(case, impl, model):
         pfail = f'bare generic {case["c"]["ann"][1]}: outcome {io} instead of PedanticTypeCheckException for value {json.dumps(case["c"]["val"])}'
     return {'corr': corr, 'pfail': pfail, 'finding': None, 'nontrivial': True, 'tag': f"{case['c']['ann'][1]}/{io.split(':')[0]}",
             'why': '' if corr else f'implementation {io} vs model {model["out"]}'}
+
+
+def twins(case):
+    """amplified run: primed twins of call-layer cases (one def executed twice with other annotations, number twins: _call_common.twins)"""
+    return C.twins(case)
+
+
+export_state, import_state = K.export_state, K.import_state      # the name table travels with replays / amplified runs
